@@ -6,7 +6,8 @@ import Driver.Util
 C03 driver channel (trace monitor).
 
   c03 mon <cmd> <spec> <pre> <run>
-     cmd   = backup | forget | prune | prune-instant | merge | repairsnap | repairidx | repairidx-readall | config | key
+     cmd   = backup | forget | prune | prune-instant | merge | copy | rewrite | repairsnap | repairidx | repairidx-readall |
+             config | key | keyrm   (copy: the repository is the destination)
      spec  = scenario description (only read by the harness)
      pre   = abstract operations that build the state before the command (applied to the empty repository)
      run   = abstract operations the real command issued (decoded from the backend log by the harness)
@@ -22,7 +23,8 @@ C03 driver channel (trace monitor).
      packs in the order they were indexed (the order inside the index files) with `maxCount` = the generated
      `C03_INDEXER_MAX_COUNT`; the index files it writes must list the same groups of packs as the observed ones.
   observation: `ok` iff the pre-state is consistent, the state after EVERY prefix of `run` is consistent
-  (Repo.firstBad = none) and `run` is in the phase language of the command; else `bad:…`.
+  (Repo.firstBad = none), `run` is in the phase language of the command and — for the commands that publish new packs
+  (backup, copy, merge, rewrite, repairsnap) — in the writer language ((a) below); else `bad:…`.
 -/
 namespace Driver.C03
 open Rustic.Repo Driver
@@ -71,16 +73,6 @@ def parseOp (s : String) : Option Op :=
 
 def parseOps (s : String) : Option (List Op) := (splitList ";" s).mapM parseOp
 
-def monitor (cmd : String) (pre run : List Op) : String :=
-  let r0 := applyAll {} pre
-  if !consistent r0 then "bad:pre-inconsistent" else
-  match phasesOf cmd with
-  | none => "bad-op"
-  | some phs =>
-    match firstBad r0 run with
-    | some k => s!"bad:prefix{k}"
-    | none => if matchPhases phs (run.map Op.kind) then "ok" else "bad:phase"
-
 /-- writer language of a fault-free run that adds data (see the header) -/
 def writerLang : List Nat → List Op → Bool
   | w, [] => w.isEmpty
@@ -88,6 +80,22 @@ def writerLang : List Nat → List Op → Bool
   | w, .writeIndex i :: r =>
     i.packs.all (fun p => w.contains p.id) && writerLang (w.filter (fun id => !(i.packs.any (fun p => p.id == id)))) r
   | w, _ :: r => writerLang w r
+
+/-- commands whose new index files list exactly the packs the run wrote (packer → writer → indexer, `publish` protocol) -/
+def publishCmds : List String := ["backup", "copy", "merge", "rewrite", "repairsnap"]
+
+def monitor (cmd : String) (pre run : List Op) : String :=
+  let r0 := applyAll {} pre
+  if !consistent r0 then "bad:pre-inconsistent" else
+  match phasesOf (if cmd = "keyrm" then "key" else cmd) with
+  | none => "bad-op"
+  | some phs =>
+    match firstBad r0 run with
+    | some k => s!"bad:prefix{k}"
+    | none =>
+      if !matchPhases phs (run.map Op.kind) then "bad:phase"
+      else if publishCmds.contains cmd && !writerLang [] run then "bad:writer-language"
+      else "ok"
 
 def parseCounts (s : String) : Option (List (Nat × Nat)) :=
   (splitList "." s).mapM (fun t => match t.splitOn "=" with
